@@ -27,7 +27,7 @@ type steerT struct {
 	Encrypt bool   `json:"encrypt"`
 	Dir     string `json:"dir"` // "c2s" | "s2c"
 	Buf     uint32 `json:"buf"`
-	Back    int    `json:"back"` // chunks (>= 1) the sender still sends before it wraps: a conforming sender has sent a number > UInt32.Max-1024 before it wraps
+	Back    int    `json:"back"`  // chunks (>= 1) the sender still sends before it wraps: a conforming sender has sent a number > UInt32.Max-1024 before it wraps
 	Exact   bool   `json:"exact"` // first message body is an exact multiple of the max chunk body (empty final chunk)
 	Msgs    []struct {
 		Tmpl int `json:"tmpl"`
